@@ -62,6 +62,8 @@ EXTRA = {
     'C03-compressor-cached-on-websocket': ['C17', 'C06'],
     'C07-session-recycled-ready-not-reset': ['C17', 'C16'],
     'C07-regular-skipped-while-readable': ['C15'],
+    'C07-rejected-no-break-plus-closed-only-if-closing': ['C10'],
+    'C05-shared-close-validator-plus-partial-reset': ['C17'],
     'C10-m1-build-request-headers-alias': ['C17'],
     'C14-m1-send-pong-limit-ge-125': ['C03', 'C01'],
     'C15-m1-close-timeout-passed-ping-timeout': ['C07', 'C09'],
